@@ -93,7 +93,7 @@ func structTransparent(named types.Type, st *types.Struct) bool {
 		}
 	}
 	// large foreign structs are kept opaque unless small
-	return st.NumFields() <= 8
+	return st.NumFields() <= 12
 }
 
 // SortOf maps a Go type to an SMT sort, declaring what is needed.
